@@ -287,8 +287,11 @@ def run_c09(ctx):
         nd = rng.randint(1, 4)
         if op == 'slice':
             dims = []
-            for _ in range(nd):
-                n = rng.randint(1, 6)
+            big = rng.random() < 0.02            # a long first dimension: lengths around the small-integer cache of CPython (256) and beyond
+            if big:
+                nd = rng.randint(1, 2)
+            for k in range(nd):
+                n = rng.choice([255, 256, 257, 258, 300, 1000]) if big and k == 0 else rng.randint(1, 6 if not big else 3)
                 dims.append(dict(n=n, kind=rng.choice(['edges', 'centres']),
                                  a=rng.choice([None] + list(range(-n - 2, n + 3))),
                                  b=rng.choice([None] + list(range(-n - 2, n + 3))), step=rng.choice([None, 1])))
